@@ -47,4 +47,5 @@ Definition wf_case (c : case) : bool :=
   | CBytes _ _ _ => true
   | CMut _ _ => true
   | CResolved _ rb ra => wf_tree rb && wf_tree ra
+  | CSerB p _ _ _ _ => wf_tree p
   end.
